@@ -220,35 +220,45 @@ def copies (var : Text) (s e : Int) (body : List Line) : List Line :=
 
 def rangeErr (s e : Int) : String := s!"range {s}..{e}"
 
-/-- `expand_one_pass` on the list of lines -/
-def onePass : List Line → Outcome (List Line)
-  | [] => .ok []
-  | l :: rest =>
+/-- `MAX_EXPANDED_LINES`: lines all loop expansions of one source may produce together (after the fix) -/
+def MAX_EXPANDED_LINES : Nat := 1000000
+
+/-- `((end - start).max(0) as usize).saturating_mul(body_end - body_start)`; the saturation at
+`usize::MAX` is immaterial because the product is only compared with a budget ≤ `MAX_EXPANDED_LINES` -/
+def produced (s e : Int) (body : List Line) : Nat := (e - s).toNat * body.length
+
+/-- `expand_one_pass` on the list of lines; `b` = remaining line budget, returned updated -/
+def onePass : Nat → List Line → Outcome (List Line × Nat)
+  | b, [] => .ok ([], b)
+  | b, l :: rest =>
     match loopHeader l with
     | some (var, s, e) =>
       if tooLarge s e then .err (rangeErr s e)
+      else if produced s e (rest.takeWhile bodyLine) > b then .err "budget"
       else
-        (onePass (rest.dropWhile bodyLine)).map (copies var s e (rest.takeWhile bodyLine) ++ ·)
-    | none => (onePass rest).map (l :: ·)
-termination_by ls => ls.length
+        (onePass (b - produced s e (rest.takeWhile bodyLine)) (rest.dropWhile bodyLine)).map
+          fun r => (copies var s e (rest.takeWhile bodyLine) ++ r.1, r.2)
+    | none => (onePass b rest).map fun r => (l :: r.1, r.2)
+termination_by _ ls => ls.length
 decreasing_by
   all_goals simp_wf
   · have := (List.dropWhile_suffix (l := rest) bodyLine).length_le; omega
 
 /-- `expand_one_pass` on text -/
-def onePassText (src : Text) : Outcome Text := (onePass (rustLines src)).map joinLines
+def onePassText (b : Nat) (src : Text) : Outcome (Text × Nat) :=
+  (onePass b (rustLines src)).map fun r => (joinLines r.1, r.2)
 
-/-- the pass loop of `expand_declaration_loops`; `n` = passes left -/
-def passes : Nat → Text → Outcome Text
-  | 0, r => .ok r
-  | n + 1, r =>
-    match onePassText r with
-    | .ok e => if e = r then .ok r else if n = 0 then .err "passes" else passes n e
+/-- the pass loop of `expand_declaration_loops`; `n` = passes left, `b` = line budget left -/
+def passes : Nat → Nat → Text → Outcome Text
+  | 0, _, r => .ok r
+  | n + 1, b, r =>
+    match onePassText b r with
+    | .ok (e, b') => if e = r then .ok r else if n = 0 then .err "passes" else passes n b' e
     | .err k => .err k
     | .panic w => .panic w
 
 /-- `expand_declaration_loops` -/
-def expand (src : Text) : Outcome Text := passes MAX_EXPANSION_PASSES src
+def expand (src : Text) : Outcome Text := passes MAX_EXPANSION_PASSES MAX_EXPANDED_LINES src
 
 /-! ## structured loop programs and their hand expansion (specification side of C42) -/
 
